@@ -65,7 +65,7 @@ def run_model(name, configs, *, acts, max_steps, record, max_perm=3, emit=False,
 
 # -- concrete world -----------------------------------------------------------------
 
-def make_fn(failpath, names, mode, version=1, exc_kind="value", np_check=False):
+def make_fn(failpath, names, mode, version=1, exc_kind="value", np_check=False, rsc=False):
     """The swept function, defined in a closure so that cloudpickle ships it by value.
     Returns a token of exactly its keyword arguments (the constant kattr shifts it by 10^6 per unit above 7);
     version 1 raises on the tokens listed in failpath, version 2 (the corrected function) never does."""
@@ -75,8 +75,8 @@ def make_fn(failpath, names, mode, version=1, exc_kind="value", np_check=False):
         tok = 0
         for j, nm in enumerate(names):
             tok += int(kw[nm]) * (100 ** j)
-        want_extra = ["kattr", "t"] if mode == "xvt" else ["kattr"]
-        if extra != want_extra or kw["kattr"] not in (7, 8):
+        want_extra = sorted((["kattr", "t"] if mode == "xvt" else ["kattr"]) + (["rsc"] if rsc else []))
+        if extra != want_extra or kw["kattr"] not in (7, 8) or (rsc and kw["rsc"] != 5):
             tok = -1          # constants must be passed exactly
         if np_check and any(type(kw[nm]).__name__ != "uint8" for nm in names):
             tok = -1          # argument values must arrive with the type they were given (numpy uint8 here)
@@ -111,6 +111,10 @@ def make_fn(failpath, names, mode, version=1, exc_kind="value", np_check=False):
     return fn
 
 
+def _sibling_fn(a):
+    return a
+
+
 class World(object):
     def __init__(self, case, variant):
         self.xyz = common.use_repo()
@@ -137,7 +141,17 @@ class World(object):
             self.id_of_tok[t] = i + 1
         self.set_failing(sorted(cfg["failing"]) if isinstance(cfg["failing"], (list, set)) else [])
         self.np_values = bool(variant.get("np_values"))
-        self.fn = make_fn(self.failpath, tuple(self.names), self.mode, 1, variant.get("exc_kind", "value"), self.np_values)
+        # a resource (passed to the function, not recorded) for farmer crops
+        self.rsc = bool(variant.get("resources")) and self.farmer_kind != "none"
+        self.fn = make_fn(self.failpath, tuple(self.names), self.mode, 1, variant.get("exc_kind", "value"), self.np_values, self.rsc)
+        # the crop's place: words of the crop's own file layout in the path must not matter
+        if variant.get("path_words"):
+            self.parent = os.path.join(self.tmp, "results", "batches")
+            os.makedirs(self.parent)
+            self.crop_name = "xyz-result-batches"
+        else:
+            self.parent = self.tmp
+            self.crop_name = "vxcrop"
         self.kver = 0           # version of the farmer's constants
         self.expect_k = 0       # constants version the model says is baked into the sown batches
         self.cause = cfg["cause"]
@@ -154,6 +168,7 @@ class World(object):
         if self.memory_only:
             self.data_name = None          # an in-memory Harvester / Sampler
         self.crop = None
+        self.sibling_files = None
         self.farmer = None
         self.overwrite = None
         self.sample_feed = None
@@ -185,6 +200,8 @@ class World(object):
             names = names + ["zz"]
         consts = {"kattr": 7 + self.kver}
         kw = dict(fn_args=self.names, var_dims=dims, constants=consts, attrs={"note": "hello"})
+        if self.rsc:
+            kw["resources"] = {"rsc": 5}
         if mode == "xv":
             kw["var_coords"] = {"t": [0.5, 1.5]}
         if mode == "xvt":
@@ -205,7 +222,12 @@ class World(object):
     def new_handle(self, first=False, from_disk=False):
         xyz = self.xyz
         cfg = self.cfg
-        kw = dict(name="vxcrop", parent_dir=self.tmp)
+        kw = dict(name=self.crop_name, parent_dir=self.parent)
+        if (not first and not from_disk and self.variant.get("no_autoload") and self.variant.get("reload_ctor_args")
+                and cfg["bwhere"] == "ctor"):
+            # a handle built with the same arguments that does not look at what is on disk
+            kw["autoload"] = False
+        self.unsynced = kw.get("autoload") is False
         if first or (self.variant.get("reload_ctor_args") and not from_disk):
             # (a user re-running the script constructs the Crop with the same arguments again: what is on disk wins)
             if cfg["bwhere"] == "ctor":
@@ -228,11 +250,24 @@ class World(object):
             else:
                 if from_disk and not first:
                     from xyzpy.gen.cropping import from_pickle, read_from_disk, FNCT_NM
-                    self.fn = from_pickle(read_from_disk(os.path.join(self.tmp, ".xyz-vxcrop", FNCT_NM)))
+                    self.fn = from_pickle(read_from_disk(os.path.join(self.parent, ".xyz-" + self.crop_name, FNCT_NM)))
                 if not (first and self.farmer is not None):      # a Harvester that already harvested directly is kept
                     self.farmer = self.make_farmer(broken=broken)
                 self.crop = xyz.Crop(farmer=self.farmer, **kw)
         return self.crop
+
+    def make_sibling(self):
+        """Another, un-reaped crop next to this one whose name starts with this crop's name."""
+        sib = self.xyz.Crop(fn=_sibling_fn, name=self.crop_name + "_fine", parent_dir=self.parent, batchsize=1)
+        sib.sow_combos({"a": [1, 2]}, verbosity=0)
+        self.sibling_loc = sib.location
+        self.sibling_files = self.sibling_listing()
+
+    def sibling_listing(self):
+        out = []
+        for d, _, fs in os.walk(self.sibling_loc):
+            out.extend(os.path.relpath(os.path.join(d, f), self.sibling_loc) for f in fs)
+        return sorted(out)
 
     def seed_value(self, s):
         # seed 1 -> True or an int, seed 2 -> another int; the forced shuffle keys on int(seed)
@@ -248,7 +283,10 @@ class World(object):
         return items
 
     def cases_arg(self):
-        return [dict(zip(self.case_names, [self.val(v) for v in c])) for c in self.cfg["cases"]]
+        cs = [dict(zip(self.case_names, [self.val(v) for v in c])) for c in self.cfg["cases"]]
+        if len(cs) == 1 and self.variant.get("bare_case_dict"):
+            return cs[0]           # a single case may be given as the dict itself
+        return cs
 
 
 class ForcedShuffle(object):
@@ -296,6 +334,9 @@ def perm_of(case, s):
 
 def observe(w):
     crop = w.crop
+    if w.variant.get("observer_fresh") and os.path.isdir(crop.location) and crop.is_prepared():
+        # progress as another process sees it: a new handle that knows the name and the directory only
+        crop = w.xyz.Crop(name=w.crop_name, parent_dir=w.parent)
     loc = crop.location
     present = os.path.isdir(loc) and crop.is_prepared()
     if not present:
@@ -358,7 +399,10 @@ def read_batches(w):
             kw = dict(kw)
             extra = {k: kw.pop(k) for k in list(kw) if k not in w.names}
             extra.pop("t", None)
-            if extra != {"kattr": 7 + w.expect_k} or set(kw) != set(w.names):
+            want_extra = {"kattr": 7 + w.expect_k}
+            if w.rsc:
+                want_extra["rsc"] = 5
+            if extra != want_extra or set(kw) != set(w.names):
                 ids.append(-1)
                 continue
             t = sum(int(kw[nm]) * (100 ** j) for j, nm in enumerate(w.names))
@@ -607,11 +651,16 @@ def do_step(w, ev):
                     if w.crop is None:
                         if w.variant.get("early_handle") and w.farmer_kind == "none":
                             # a handle created before anybody sowed (it knows nothing yet); used later for reaping
-                            w.early = w.xyz.Crop(fn=w.fn, name="vxcrop", parent_dir=w.tmp)
+                            w.early = w.xyz.Crop(fn=w.fn, name=w.crop_name, parent_dir=w.parent)
                             w.first_handle = None
                         crop = w.new_handle(first=True)
+                        if w.variant.get("sibling"):
+                            w.make_sibling()
                     else:
                         crop = w.crop          # a second campaign on the very same Crop object
+                elif (w.variant.get("early_resow") and getattr(w, "early", None) is not None and cfg["bmode"] == "none"
+                      and cfg["shufCtor"] == 0 and w.farmer_kind == "none" and not cfg["failing"]):
+                    crop = w.early             # re-sown through a handle created before anybody sowed
                 kw = {}
                 if cfg["bwhere"] == "sow" and a == "sow":
                     if cfg["bmode"] == "size":
@@ -629,7 +678,8 @@ def do_step(w, ev):
                                     verbosity=0, **kw)
                 elif cfg["kind"] == "cases":
                     cases = [tuple(w.val(v) for v in c) for c in cfg["cases"]]
-                    crop.sow_cases(w.case_names, cases, combos=tuple(w.combos_arg(reverse=False)) or None,
+                    rev = bool(w.variant.get("cases_combos_rev")) and w.farmer_kind in ("runner", "harvester")
+                    crop.sow_cases(w.case_names, cases, combos=tuple(w.combos_arg(reverse=rev)) or None,
                                    constants=consts, verbosity=0, **kw)
                 else:
                     feeds = {nm: [w.val(c[j]) for c in cfg["cases"]] for j, nm in enumerate(w.case_names)}
@@ -653,7 +703,7 @@ def do_step(w, ev):
                 ids = [args[0]] if a == "grow" else (list(args[0]) if a == "grow_set" else None)
                 code = ("import sys; sys.path.insert(0, %r); import xyzpy\n"
                         "assert xyzpy.__file__.startswith(%r), xyzpy.__file__\n"
-                        "c = xyzpy.Crop(name='vxcrop', parent_dir=%r)\n" % (common.REPO, common.REPO, w.tmp))
+                        "c = xyzpy.Crop(name=%r, parent_dir=%r)\n" % (common.REPO, common.REPO, w.crop_name, w.parent))
                 if a == "grow" and args[1] == "fn":
                     code += "xyzpy.grow(%d, crop=c, verbosity=0)\n" % args[0]
                 elif ids is not None:
@@ -673,13 +723,23 @@ def do_step(w, ev):
                 else:
                     crop.grow(i, verbosity=0)
             elif a == "grow_set":
-                crop.grow(tuple(args[0]), verbosity=0)
+                ids = tuple(args[0])
+                sp = w.variant.get("ids_spelling", "tuple")
+                if sp == "list":
+                    ids = list(ids)
+                elif sp == "gen":
+                    ids = (i for i in list(ids))
+                elif sp == "iter":
+                    ids = iter(list(ids))
+                crop.grow(ids, verbosity=0)
             elif a == "grow_missing":
                 crop.grow_missing(verbosity=0)
             elif a == "fix_fn":
                 # the corrected function is put into the session's objects; workers see it after a re-sow
-                w.fn = make_fn(w.failpath, tuple(w.names), w.mode, 2, "value", w.np_values)
+                w.fn = make_fn(w.failpath, tuple(w.names), w.mode, 2, "value", w.np_values, w.rsc)
                 w.crop.fn = w.fn
+                if getattr(w, "early", None) is not None:
+                    w.early.fn = w.fn
                 if w.farmer is not None:
                     w.farmer.fn = w.fn
             elif a == "direct_harvest":
@@ -742,6 +802,11 @@ def do_step(w, ev):
                 elif w.farmer_kind == "harvester" and w.cfg["cause"] != "merge" and w.variant.get("overwrite_pol") is not None:
                     kw["overwrite"] = w.variant["overwrite_pol"]       # no conflicting data around: the policy must not matter
                 reaper = w.early if (getattr(w, "early", None) is not None and w.variant.get("early_handle")) else w.crop
+                if w.variant.get("reap_wait") and ev["post"]["outcome"] == "complete":
+                    # every result is there: waiting for results must not change anything
+                    rdir = os.path.join(w.crop.location, "results")
+                    if all(os.path.isfile(os.path.join(rdir, "xyz-result-%d.jbdmp" % i)) for i in range(1, w.case["nb"] + 1)):
+                        kw["wait"] = True
                 ret = reaper.reap(**kw)
             else:
                 raise RuntimeError("unknown action %r" % a)
@@ -827,6 +892,10 @@ def replay_case(case, variant):
                     if outcome != want:
                         return ("step %d %s%r: outcome %s (%s), model says %s" % (
                             k, ev["a"], tuple(ev["args"]), outcome, "" if exc is None else type(exc).__name__ + ": " + str(exc)[:160], want), "outcome_" + ev["a"], k, notes)
+                if w.sibling_files is not None and w.sibling_listing() != w.sibling_files:
+                    return ("after step %d %s%r: the files of the neighbouring crop %r (never reaped) changed: %r -> %r" % (
+                        k, ev["a"], tuple(ev["args"]), os.path.basename(w.sibling_loc), w.sibling_files, w.sibling_listing()),
+                        "dir_sibling", k, notes)
                 if w.crop is None:
                     continue            # nothing sown yet (a direct harvest before the sow): no crop to observe
                 prob = compare_obs(w, post, k)
@@ -853,7 +922,9 @@ def replay_case(case, variant):
                             notes.append("model_drift: settings sown in another order than the model's: %r vs %r" % (got, want_b))
                         drifted = True
                     c = w.crop
-                    if (c.num_batches, c.batchsize) != (case["nb"], case["bsz"]):
+                    if ev["a"] == "reload" and w.unsynced:
+                        pass          # a handle told not to load what is on disk does not know the numbers yet
+                    elif (c.num_batches, c.batchsize) != (case["nb"], case["bsz"]):
                         return ("after %s: crop reports num_batches=%r batchsize=%r, model says %r / %r" % (
                             ev["a"], c.num_batches, c.batchsize, case["nb"], case["bsz"]), "numbers", k, notes)
         return None, None, len(case["hist"]), notes
@@ -877,7 +948,10 @@ def default_variants(case, idx):
     k = idx
     v = dict(seed1=[True, 3][k % 2], combos_dict=(k % 3 != 0), reload_from_disk=(k % 2 == 0),
              corrupt_kind=["truncate", "long", "short"][k % 3], exc_kind=["value", "stop"][k % 4 == 1],
-             np_values=(k % 5 == 2), reload_ctor_args=(k % 2 == 1), early_handle=(k % 3 == 0), memory_only=(k % 4 == 3))
+             np_values=(k % 5 == 2), reload_ctor_args=(k % 2 == 1), early_handle=(k % 3 == 0), memory_only=(k % 4 == 3),
+             resources=(k % 3 != 1), path_words=(k % 4 == 1), no_autoload=(k % 4 in (1, 3)), observer_fresh=(k % 4 in (0, 1)),
+             bare_case_dict=(k % 2 == 0), cases_combos_rev=(k % 4 == 2), early_resow=(k % 6 == 0),
+             ids_spelling=["tuple", "gen", "list", "iter", "tuple"][k % 5], reap_wait=(k % 3 == 0), sibling=(k % 2 == 1))
     if cfg["farmer"] == "none":
         v["result"] = ["scalar", "xy", "array", "str", "bool"][k % 5]
     else:
